@@ -22,7 +22,7 @@ from .. import astutil as A
 from ..alg import FragmentFault, Interp, Obj, Poly, RaisedInFragment, Undecided, to_poly
 from ..cfg import CFG
 from ..dep import Deps
-from .c01 import registry
+from .c01 import build_args, registry
 
 EXPLANATION = (
     "The functions that run during Model construction (spec walk, builders, appliers' constructors, parameter "
@@ -706,7 +706,7 @@ def _duplicates_interpreted(ctx, repo, reg, pyhf_excs):
         site = f"{PDF}::_nominal_and_modifiers_from_spec [interpreted: {lab}]"
         try:
             w, mset = shared_world
-            w.call_func(f, [mset, cfg, sp, None])
+            w.call_func(f, [], build_args(f, mset, cfg, sp, None))
             if must_raise:
                 ctx.violated(rid, f, f"duplicate names [{lab}]", f"a specification with {lab} is accepted as a model: part of the declared content is silently dropped or merged", expected="raise InvalidModel", found="accepted")
             else:
